@@ -117,6 +117,10 @@ func ruleFeatureConsumers(c *core.Ctx, rule string, filter func(target string) b
 						c.Pass(rule, key, pos(c, cl.Call), "every non-error path through this read tests "+cond)
 					}
 					for _, lf := range lifted {
+						if ambiguousFeatureErr(s.Encl, info) {
+							c.Unrecognised(rule, fmt.Sprintf("%s:reads:%s:needs:%s:path-%s", lf.fkey, t, cond, lf.desc), pos(c, cl.Call), "one error variable receives the result of several feature-test wrappers; the guards of this read are not decided")
+							continue
+						}
 						c.Fail(rule, fmt.Sprintf("%s:reads:%s:needs:%s:path-%s", lf.fkey, t, cond, lf.desc), pos(c, cl.Call), fmt.Sprintf("%s is read here but rows exist in it only when %s; a path through this read (%s) reaches %s without a positive test of that feature — with the feature off it answers from an empty/stale table instead of reporting the missing feature (or falling back to current data)", t, cond, lf.desc, lf.where))
 					}
 				}
@@ -161,6 +165,10 @@ func ruleFeatureConsumers(c *core.Ctx, rule string, filter func(target string) b
 							c.Pass(rule, key, pos(c, cl.Call), "every non-error path through this read tests "+cond)
 						}
 						for _, lf := range lifted {
+							if ambiguousFeatureErr(s.Encl, info) {
+								c.Unrecognised(rule, fmt.Sprintf("%s:reads:%s:needs:%s:path-%s", lf.fkey, target, cond, lf.desc), pos(c, cl.Call), "one error variable receives the result of several feature-test wrappers; the guards of this read are not decided")
+								continue
+							}
 							c.Fail(rule, fmt.Sprintf("%s:reads:%s:needs:%s:path-%s", lf.fkey, target, cond, lf.desc), pos(c, cl.Call), fmt.Sprintf("column %s is read here but it is maintained only when %s; a path through this read (%s) reaches %s without a positive test of that feature", target, cond, lf.desc, lf.where))
 						}
 					}
@@ -466,4 +474,22 @@ func featureTableMaps(c *core.Ctx) map[string]map[string][]string {
 		}
 	}
 	return maps
+}
+
+// ambiguousFeatureErr: fd uses an error variable that is assigned from feature-test wrappers more
+// than once (astx does not read its nil tests as feature tests).
+func ambiguousFeatureErr(fd *ast.FuncDecl, info *types.Info) bool {
+	if fd == nil || fd.Body == nil || len(astx.FeatureErrAmbiguous) == 0 {
+		return false
+	}
+	found := false
+	ast.Inspect(fd.Body, func(n ast.Node) bool {
+		if id, ok := n.(*ast.Ident); ok {
+			if obj := info.ObjectOf(id); obj != nil && astx.FeatureErrAmbiguous[obj] {
+				found = true
+			}
+		}
+		return !found
+	})
+	return found
 }
